@@ -4,6 +4,7 @@
 package exec
 
 import (
+	"runtime"
 	"fmt"
 	"os"
 	"go/types"
@@ -208,6 +209,7 @@ type Exec struct {
 	// side tables (per path)
 	locks  map[lockKey]int // 0 free, -1 write-held, n>0 readers
 	pools  map[lockKey][]Value
+	poolDoublePut int // sync.Pool monitor: Put of an object that is already in the pool
 	framePick int // runtime frame stub: which of frameFiles this path's (single) program counter resolves to; -1 = not chosen yet
 	wgs    map[lockKey]int
 	mon    *monitor
@@ -341,6 +343,7 @@ func (e *Exec) resetPath() {
 	e.locks = map[lockKey]int{}
 	e.pools = map[lockKey][]Value{}
 	e.framePick = -1
+	e.poolDoublePut = 0
 	e.wgs = map[lockKey]int{}
 	e.mon = nil
 	e.ghost = map[string]Value{}
@@ -530,6 +533,10 @@ func (e *Exec) runOnce(fn *ssa.Function) (end pathEnd) {
 				end = x
 			case *goPanic:
 				end = pathEnd{"panic", e.panicString(x)}
+			case runtime.Error:
+				// the interpreter itself failed on code it does not model (e.g. internals of a library function that has
+				// no stub): the path is inconclusive, never a pass and never a crash of the whole check
+				end = pathEnd{"unsupported", "engine could not interpret this path: " + x.Error()}
 			default:
 				panic(r)
 			}
